@@ -4,6 +4,7 @@
 //   OUT BIND <id> ok pm=<logical process mask> n=<workers> w=<mask>:<pu>:<pool>|... pools=<name>:<offset>:<count>|... [os=...] [in=...]
 //   OUT BIND <id> err=<class> [pm=<logical process mask>] msg=<canonical message>
 // usage: c15_bind <id> <poolspec> <probe> [pika options...]
+//        c15_bind RESTART <id> <poolspec> <probe> [pika options...] @@ <id> <poolspec> <probe> [...] @@ ...   (several starts in ONE process)
 //   poolspec  "-"  or  "a.b.c;d.e"  : extra pool k (named p1, p2, ...) takes the exposed PUs at the
 //             given positions of the partitioner's socket/core/pu enumeration (rp.sockets())
 //   probe     0: partitioner data only
@@ -151,22 +152,18 @@ static int print_topology()
     return 0;
 }
 
-int main(int argc, char** argv)
+// watchdog: a hang of the real code must become a reported line, not a hung check (20 s per start of the runtime)
+static std::atomic<long long> g_deadline_ms{0};
+static long long now_ms()
 {
-    if (argc >= 2 && std::string(argv[1]) == "TOPO") return print_topology();
-    if (argc < 4) return 2;
-    id = argv[1];
-    std::string poolspec = argv[2];
-    int probe = std::atoi(argv[3]);
+    return (long long) std::chrono::duration_cast<std::chrono::milliseconds>(std::chrono::steady_clock::now().time_since_epoch()).count();
+}
 
-    // watchdog: a hang of the real code must become a reported line, not a hung check
-    std::thread([] {
-        std::this_thread::sleep_for(std::chrono::seconds(20));
-        std::printf("OUT BIND %s err=hang msg=watchdog\n", id.c_str());
-        std::fflush(stdout);
-        std::_Exit(3);
-    }).detach();
-
+// one start of the runtime: start, report, finalize, stop.  Returns false when the start was refused.
+static bool run_case(char* argv0, std::string const& cid, std::string const& poolspec, int probe, std::vector<std::string> const& opts)
+{
+    id = cid;
+    g_deadline_ms = now_ms() + 20000;
     std::vector<std::vector<std::size_t>> pools;
     if (poolspec != "-")
     {
@@ -183,9 +180,10 @@ int main(int argc, char** argv)
         }
     }
 
+    std::vector<std::string> optcopy(opts);
     std::vector<char*> av;
-    av.push_back(argv[0]);
-    for (int i = 4; i < argc; ++i) av.push_back(argv[i]);
+    av.push_back(argv0);
+    for (auto& o : optcopy) av.push_back(o.data());
     av.push_back(nullptr);
 
     pika::init_params p;
@@ -213,12 +211,12 @@ int main(int argc, char** argv)
     catch (std::exception const& e)
     {
         report_error(e.what());
-        return 0;
+        return false;
     }
     catch (...)
     {
         report_error("unknown exception");
-        return 0;
+        return false;
     }
 
     try
@@ -311,5 +309,47 @@ int main(int argc, char** argv)
     }
     pika::finalize();
     pika::stop();
+    return true;
+}
+
+int main(int argc, char** argv)
+{
+    if (argc >= 2 && std::string(argv[1]) == "TOPO") return print_topology();
+    std::thread([] {
+        for (;;)
+        {
+            std::this_thread::sleep_for(std::chrono::milliseconds(100));
+            long long d = g_deadline_ms.load();
+            if (d != 0 && now_ms() > d)
+            {
+                std::printf("OUT BIND %s err=hang msg=watchdog\n", id.c_str());
+                std::fflush(stdout);
+                std::_Exit(3);
+            }
+        }
+    }).detach();
+    if (argc >= 2 && std::string(argv[1]) == "RESTART")
+    {
+        // c15_bind RESTART <id> <poolspec> <probe> [pika options...] @@ <id> <poolspec> <probe> [pika options...] @@ ...
+        // several starts of the runtime in ONE process (start / report / finalize / stop each), one OUT BIND line per
+        // start.  A refused start ends the sequence (the lines of the later starts are then missing).
+        int i = 2;
+        while (i + 2 < argc)
+        {
+            std::string cid = argv[i], ps = argv[i + 1];
+            int probe = std::atoi(argv[i + 2]);
+            i += 3;
+            std::vector<std::string> opts;
+            for (; i < argc && std::string(argv[i]) != "@@"; ++i) opts.push_back(argv[i]);
+            if (i < argc) ++i;
+            if (!run_case(argv[0], cid, ps, probe, opts)) break;
+        }
+        g_deadline_ms = 0;
+        return 0;
+    }
+    if (argc < 4) return 2;
+    std::vector<std::string> opts;
+    for (int i = 4; i < argc; ++i) opts.push_back(argv[i]);
+    run_case(argv[0], argv[1], argv[2], std::atoi(argv[3]), opts);
     return 0;
 }
